@@ -30,6 +30,13 @@ RULE = ("generated documents: 1-3 pages of positioned text runs (horizontal line
         "XObject names drawn from the same alphabet; nested form XObjects, image XObjects, lines, rectangles, curves, "
         "g/rg/k colours; crossed with LAParams (None, default, boxes_flow None, detect_vertical, all_texts, margins), "
         "output type text|xml, sink StringIO|BytesIO+codec (utf-8, utf-16, utf-16-le, latin-1, cp1252, utf-32, utf-8-sig; the codecs with a byte-order mark show a second mark as a stray U+FEFF), strip_control. "
+        "Documents also use Japanese / Korean text with codecs that carry a shift state from one write to the next "
+        "(iso2022_jp, iso2022_jp_2, iso2022_kr, utf-7) and multi-byte / non-ASCII-compatible codecs (shift_jis, euc_jp, "
+        "euc_kr, gb18030, big5, utf-16-be, cp037), names that collide after stripping / escaping, disable_caching; about "
+        "60 % of the documents are followed, in the same process, by a second conversion (strip_control flipped, the same "
+        "again, a sibling document with the same font / XObject names, another codec, caching flipped): state left behind "
+        "by a converter must not matter. A failure is re-run in a fresh interpreter to find out which earlier steps it "
+        "needs; the replay contains exactly those. "
         "A case is one (document, laparams, output type, sink, strip) evaluation; non-trivial when the document has at "
         "least one glyph and at least one special (XML-special, control or non-ASCII) character in a text or a name")
 TRUSTED_BASE = [
@@ -51,7 +58,8 @@ ASSUMPTIONS = [
     "characters are Unicode scalar values (no lone surrogates); without strip_control well-formedness is demanded only "
     "when every text and name consists of XML 1.0 Char; with strip_control also C0 controls may occur; U+FFFE/U+FFFF "
     "are outside the generated alphabet",
-    "sink equality is demanded only when the codec can represent every character of the output",
+    "sink equality is demanded only when the codec can represent every character of the output (whole-string "
+    "encode/decode round trip is the identity - SO/SI/ESC are not representable in ISO-2022 codecs)",
     "imagewriter is None (image export belongs to C18/C15)",
 ]
 STATEMENT_STATUS: Dict[str, str] = {
@@ -102,6 +110,8 @@ ALPHABETS = {
     "cp1252": "€’œ",
     "bmp": "Ω漢 �﻿",
     "astral": "\U0001f600\U00010000",
+    "cjk": "日本語あア、",
+    "hangul": "한국어",
 }
 
 
@@ -116,10 +126,12 @@ def gen_string(rng, kinds: List[str], lo=1, hi=6) -> str:
 
 def gen_spec(rng, profile: Optional[str] = None) -> Dict[str, Any]:
     """A JSON-able document description."""
-    profile = profile or rng.choice(["plain", "special", "control", "wide", "mixed", "mixed", "latin", "wsp"])
+    profile = profile or rng.choice(["plain", "special", "control", "wide", "mixed", "mixed", "latin", "wsp", "cjk",
+                                     "hangul"])
     kinds = {"plain": ["ascii"], "special": ["ascii", "special", "special"],
              "control": ["ascii", "control", "special"], "wide": ["ascii", "bmp", "astral", "cp1252", "special"],
              "latin": ["ascii", "latin1", "special"], "wsp": ["ascii", "wsp", "special"],
+             "cjk": ["ascii", "cjk", "cjk", "special"], "hangul": ["ascii", "hangul", "special"],
              "mixed": ["ascii", "special", "control", "latin1", "cp1252", "bmp", "astral", "wsp"]}[profile]
     name_kinds = [k for k in kinds if k != "wsp"] if rng.random() < 0.7 else kinds
     fonts = []
@@ -140,6 +152,8 @@ def gen_spec(rng, profile: Optional[str] = None) -> Dict[str, Any]:
                 m[str(code)] = gen_string(rng, kinds, 2, 3)
                 code += 1
         fonts.append({"std": False, "name": gen_string(rng, name_kinds + ["ascii"], 1, 8), "map": m})
+    if len(fonts) >= 2 and not fonts[0].get("std") and not fonts[1].get("std") and rng.random() < 0.25:
+        fonts[1]["name"] = fonts[0]["name"] + rng.choice(["\x01", "\x0b", "&", "\t", "'", " "])
     nx = rng.randint(0, 3)
     xobjs = []
     for xi in range(nx):
@@ -147,6 +161,8 @@ def gen_spec(rng, profile: Optional[str] = None) -> Dict[str, Any]:
         xobjs.append({"name": gen_string(rng, name_kinds + ["ascii"], 1, 6), "kind": kind,
                       "items": [], "matrix": rng.choice([[1, 0, 0, 1, 0, 0], [1, 0, 0, 1, 20, 30], [0.5, 0, 0, 0.5, 100, 100]]),
                       "w": rng.randint(1, 4), "h": rng.randint(1, 4)})
+    if len(xobjs) >= 2 and rng.random() < 0.25:
+        xobjs[1]["name"] = xobjs[0]["name"] + rng.choice(["\x01", "\x0b", "&", "\t", "'", " "])
     # distinct names (resource dictionary keys)
     seen = set()
     for i, x in enumerate(xobjs):
@@ -488,7 +504,11 @@ def attach_image_names(node, names: List[str]) -> None:
     walk(node)
 
 
-def impl_convert(pdf: bytes, la, otype: str, codec: Optional[str], strip: bool, images: bool = False):
+FILESINK = [False]     # set per step: write into real files (objects with a `mode`) instead of StringIO / BytesIO
+
+
+def impl_convert(pdf: bytes, la, otype: str, codec: Optional[str], strip: bool, images: bool = False,
+                 nocache: bool = False):
     """Returns (output, tree rendered): str (text sink) when codec is None, else bytes (binary sink).
     `images`: xml only - pass an output_dir, so that an ImageWriter exports the images and <image src=…> is written."""
     import shutil
@@ -497,25 +517,50 @@ def impl_convert(pdf: bytes, la, otype: str, codec: Optional[str], strip: bool, 
     if images and otype == "xml":
         d = tempfile.mkdtemp(prefix="c11img")
         try:
-            return _impl_convert(pdf, la, otype, codec, strip, os.path.join(d, "out"))
+            return _impl_convert(pdf, la, otype, codec, strip, os.path.join(d, "out"), nocache)
         finally:
             shutil.rmtree(d, ignore_errors=True)
-    return _impl_convert(pdf, la, otype, codec, strip, None)
+    return _impl_convert(pdf, la, otype, codec, strip, None, nocache)
 
 
-def _impl_convert(pdf: bytes, la, otype: str, codec: Optional[str], strip: bool, outdir: Optional[str]):
+def _impl_convert(pdf: bytes, la, otype: str, codec: Optional[str], strip: bool, outdir: Optional[str],
+                  nocache: bool = False):
+    import tempfile
     from pdfminer.high_level import extract_text_to_fp
+    path = None
+    if FILESINK[0]:
+        fd, path = tempfile.mkstemp(prefix="c11sink")
+        os.close(fd)
     if codec is None:
-        fp: Any = io.StringIO()
+        # text sink: StringIO, or a file opened in text mode (its `mode` has no "b")
+        fp: Any = open(path, "w", encoding="utf-8", errors="surrogatepass", newline="") if path else io.StringIO()
         kw = {"codec": None} if otype == "xml" else {}
     else:
-        fp = io.BytesIO()
+        fp = open(path, "wb") if path else io.BytesIO()
         kw = {"codec": codec}
     if outdir:
         kw["output_dir"] = outdir
-    with _Capture() as cap:
-        extract_text_to_fp(io.BytesIO(pdf), fp, output_type=otype, laparams=mk_laparams(la), strip_control=strip, **kw)
-    return fp.getvalue(), cap.pages
+    if nocache:
+        kw["disable_caching"] = True
+    try:
+        with _Capture() as cap:
+            extract_text_to_fp(io.BytesIO(pdf), fp, output_type=otype, laparams=mk_laparams(la), strip_control=strip,
+                               **kw)
+        if path is None:
+            return fp.getvalue(), cap.pages
+        fp.close()
+        if codec is None:
+            with open(path, "r", encoding="utf-8", errors="surrogatepass", newline="") as rf:
+                return rf.read(), cap.pages
+        with open(path, "rb") as rb:
+            return rb.read(), cap.pages
+    finally:
+        if path is not None:
+            try:
+                fp.close()
+            except Exception:  # noqa: BLE001
+                pass
+            os.unlink(path)
 
 
 def impl_extract_text(pdf: bytes, la):
@@ -753,13 +798,23 @@ def tree_line(op: str, tree, *args: str) -> str:
 
 # ------------------------------------------------------------------ one case
 
-CODECS = ["utf-8", "utf-16", "utf-16-le", "latin-1", "cp1252", "utf-32", "utf-8-sig"]
+CODECS = ["utf-8", "utf-16", "utf-16-le", "latin-1", "cp1252", "utf-32", "utf-8-sig",
+          # codecs with a shift state / escape sequences (state carried from one write to the next), multi-byte
+          # codecs, a non-ASCII-compatible single-byte codec
+          "utf-7", "gb18030", "iso2022_jp", "iso2022_jp_2", "iso2022_kr", "shift_jis", "euc_jp", "euc_kr", "big5",
+          "utf-16-be", "cp037"]
+CODECS_BY_PROFILE = {
+    "cjk": ["iso2022_jp", "iso2022_jp_2", "shift_jis", "euc_jp", "gb18030", "utf-7", "utf-16", "iso2022_jp"],
+    "hangul": ["iso2022_kr", "euc_kr", "gb18030", "utf-7", "utf-8-sig", "iso2022_kr"],
+    "plain": ["cp037", "iso2022_jp", "iso2022_kr", "utf-7", "latin-1", "utf-32", "big5"],
+}
 
 
 def representable(s: str, codec: str) -> bool:
+    """The codec can represent the characters: the whole-string round trip is the identity (encoding alone is not
+    enough: ISO-2022 codecs pass SO / SI / ESC through as bytes that the decoder reads as shift functions)."""
     try:
-        s.encode(codec)
-        return True
+        return s.encode(codec).decode(codec) == s
     except UnicodeError:
         return False
 
@@ -787,12 +842,12 @@ def hexs(s: str) -> str:
 
 
 def eval_case(spec, la, strip: bool, codecs: List[str], want_model: bool = True,
-              only: Optional[str] = None, images: bool = False) -> CaseResult:
+              only: Optional[str] = None, images: bool = False, nocache: bool = False) -> CaseResult:
     """Evaluate the property on the implementation for one document / laparams / strip choice over both
     output types, the text sink and the given binary codecs; collect model requests.
     `only` ("text" | "extract_text" | "xml") restricts the evaluation to one output path (used by the shrinker)."""
     res = CaseResult()
-    cfg = {"laparams": la, "strip_control": strip, "images": images}
+    cfg = {"laparams": la, "strip_control": strip, "images": images, "nocache": nocache, "filesink": FILESINK[0]}
     pdf = build_pdf(spec)
 
     def no_src(node):
@@ -859,7 +914,7 @@ def eval_case(spec, la, strip: bool, codecs: List[str], want_model: bool = True,
     text_runs: Dict[Optional[str], Tuple[str, Any]] = {}
     for codec in ([None] + list(codecs)) if only in (None, "text") else []:
         try:
-            out, tree = impl_convert(pdf, la, "text", codec, strip)
+            out, tree = impl_convert(pdf, la, "text", codec, strip, False, nocache)
         except Exception as e:  # noqa: BLE001
             fail(f"text conversion raised {type(e).__name__}" + (" (binary sink)" if codec else ""), "text output",
                  repr(e), otype="text", codec=codec, stage="convert")
@@ -911,7 +966,7 @@ def eval_case(spec, la, strip: bool, codecs: List[str], want_model: bool = True,
         if codec is not None and (xml_text_sink is None or not representable(xml_text_sink, codec)):
             continue
         try:
-            out, tree = impl_convert(pdf, la, "xml", codec, strip, images)
+            out, tree = impl_convert(pdf, la, "xml", codec, strip, images, nocache)
         except Exception as e:  # noqa: BLE001
             fail(f"xml conversion raised {type(e).__name__}" + (" (binary sink)" if codec else ""), "xml output",
                  repr(e), otype="xml", codec=codec, stage="convert")
@@ -1011,7 +1066,7 @@ def xml_tags(tree, strip) -> Dict[str, Any]:
 
 # ------------------------------------------------------------------ shrinking
 
-def shrink_spec(spec, still) -> Dict[str, Any]:
+def shrink_spec(spec, still, budget: int = 60) -> Dict[str, Any]:
     """Greedy structural shrinking of a document description; `still(spec) -> bool`."""
     import copy
     cur = copy.deepcopy(spec)
@@ -1025,7 +1080,6 @@ def shrink_spec(spec, still) -> Dict[str, Any]:
         except Exception:  # noqa: BLE001
             pass
         return False
-    budget = 60
     # drop pages
     while len(cur["pages"]) > 1 and budget > 0:
         budget -= 1
@@ -1086,76 +1140,181 @@ def path_of(f: C.Failure) -> Optional[str]:
     return None
 
 
-def minimise(f: C.Failure, deadline: float) -> C.Failure:
+def step_of(inp: Dict[str, Any], codecs: Optional[List[str]] = None) -> Dict[str, Any]:
+    """One conversion round of a session: a document + one configuration (JSON-able)."""
+    cs = codecs if codecs is not None else ([inp["codec"]] if inp.get("codec") else inp.get("codecs", []))
+    return {"spec": inp["spec"], "laparams": inp.get("laparams"), "strip_control": bool(inp.get("strip_control")),
+            "images": bool(inp.get("images")), "nocache": bool(inp.get("nocache")),
+            "filesink": bool(inp.get("filesink")), "codecs": list(cs)}
+
+
+def eval_step(step: Dict[str, Any], want_model: bool = True, only: Optional[str] = None) -> CaseResult:
+    FILESINK[0] = bool(step.get("filesink"))
+    return eval_case(step["spec"], step["laparams"], step["strip_control"], step["codecs"], want_model=want_model,
+                     only=only, images=step["images"], nocache=step["nocache"])
+
+
+def session_failures(doc: Dict[str, Any]) -> List[Dict[str, Any]]:
+    """Entry point of the fresh-process evaluation: run the steps in order in THIS process and list what failed in
+    the last one."""
+    steps = doc["steps"]
+    for st in steps[:-1]:
+        eval_step(st, want_model=False)
+    r = eval_step(steps[-1], want_model=False, only=doc.get("only"))
+    return [{"what": f.what, "codec": f.tags.get("codec")} for f in r.failures]
+
+
+def fresh_fails(steps: List[Dict[str, Any]], what: str, codec: Optional[str], only: Optional[str],
+                timeout: int = 120) -> Optional[bool]:
+    """Does the last step of `steps` still break the property (same kind) when the steps are run, in order, in a
+    NEW interpreter?  That is exactly what `./vcheck --replay` will do.  None = could not be decided."""
+    import subprocess
+    import sys
+    code = ("import sys, json; sys.path.insert(0, %r); from harness.props import c11; "
+            "print('\\n@@' + json.dumps(c11.session_failures(json.load(sys.stdin))))" % C.TOOLS)
+    env = dict(os.environ, VERIF_REPO=C.REPO)
+    try:
+        p = subprocess.run([sys.executable, "-c", code], input=json.dumps({"steps": steps, "only": only}).encode(),
+                           stdout=subprocess.PIPE, stderr=subprocess.DEVNULL, timeout=timeout, env=env)
+        line = [ln for ln in p.stdout.decode("utf-8", "replace").split("\n") if ln.startswith("@@")]
+        if p.returncode != 0 or not line:
+            return None
+        got = json.loads(line[-1][2:])
+    except Exception:  # noqa: BLE001
+        return None
+    return any(g["what"] == what and g["codec"] == codec for g in got)
+
+
+def minimise(f: C.Failure, deadline: float, before: List[Dict[str, Any]], fresh: bool) -> C.Failure:
+    """Shrink the document of the failing step.  `fresh`: decide every candidate in a new interpreter (needed when
+    the failure depends on what the process did before - the earlier steps are kept as they are)."""
     import time
     inp = f.input
-    spec, la, strip = inp["spec"], inp["laparams"], inp["strip_control"]
     codec = inp.get("codec")
     only = path_of(f)
+    what0 = f.tags.get("what0", f.what)      # as eval_case words it (the fresh interpreter reports that)
+
+    def step_for(spec2):
+        return step_of(dict(inp, spec=spec2))
 
     def same(spec2) -> Optional[C.Failure]:
         if time.time() > deadline:
             return None
-        r = eval_case(spec2, la, strip, [codec] if codec else [], want_model=False, only=only,
-                      images=bool(inp.get("images")))
+        if fresh:
+            # earlier steps that render the same document follow the shrinking
+            bef = [dict(b, spec=spec2) if b["spec"] == inp["spec"] else b for b in before]
+            ok = fresh_fails(bef + [step_for(spec2)], what0, codec, only)
+            return C.Failure(f.what, dict(inp, spec=spec2, before=bef), f.expected, f.got, f.tags) if ok else None
+        r = eval_step(step_for(spec2), want_model=False, only=only)
         for g in r.failures:
             if g.what == f.what and g.tags.get("codec") == f.tags.get("codec"):
                 return g
         return None
-    small = shrink_spec(spec, lambda s: same(s) is not None)
+    small = shrink_spec(inp["spec"], lambda s2: same(s2) is not None, budget=8 if fresh else 60)
     g = same(small)
     return g if g is not None else f
 
 
-def report(ctx: C.Ctx, f: C.Failure) -> None:
-    """Shrink the first failure of each kind (that is the one vcheck writes as replay), within a total
-    time budget; later failures of a kind are recorded as found."""
+def analyse(ctx: C.Ctx, f: C.Failure, before: List[Dict[str, Any]], deadline: float) -> C.Failure:
+    """Make the failure a self-contained replay: find out whether it needs the conversions that ran earlier in this
+    process (state carried across converters / documents), keep exactly those, then shrink."""
+    import time
+    codec, only = f.input.get("codec"), path_of(f)
+    last = step_of(f.input)
+    tags = dict(f.tags)
+    alone = fresh_fails([last], f.what, codec, only)
+    if alone is None:                       # no verdict from the fresh interpreter: report as found
+        return C.Failure(f.what, dict(f.input, before=before), f.expected, f.got, tags)
+    if alone:
+        g = minimise(f, deadline, [], fresh=False)
+        if g is not f and time.time() < deadline + 5 and not fresh_fails([step_of(g.input)], f.what, codec, only):
+            g = f                           # the shrunk input leaned on process state: keep the original
+        return g
+    hist = list(getattr(ctx, "_c11_hist", []))
+    for cand, label in ((before, "session"), (hist + before, "process-history")):
+        if cand and fresh_fails(cand + [last], f.what, codec, only):
+            keep = list(cand)
+            i = 0
+            while i < len(keep) and time.time() < deadline:      # drop earlier steps that are not needed
+                trial = keep[:i] + keep[i + 1:]
+                if fresh_fails(trial + [last], f.what, codec, only):
+                    keep = trial
+                else:
+                    i += 1
+            tags.update(stateful=True, needs=label, steps_before=len(keep), what0=f.what)
+            g = C.Failure(f.what + " (only after earlier conversions in the same process)",
+                          dict(f.input, before=keep), f.expected, f.got, tags)
+            g2 = minimise(g, deadline, keep, fresh=True)
+            return g2
+    tags.update(stateful=True, needs="unknown-process-state")
+    return C.Failure(f.what + " (only after earlier conversions in the same process)",
+                     dict(f.input, before=hist + before), f.expected, f.got, tags)
+
+
+def report(ctx: C.Ctx, f: C.Failure, before: List[Dict[str, Any]]) -> None:
+    """Analyse + shrink the first failure of each kind (that is the one vcheck writes as replay), within a total
+    time budget; later failures of a kind are recorded as found (with the steps that preceded them)."""
     import time
     st = getattr(ctx, "_c11_shrink", None)
     if st is None:
-        st = {"kinds": set(), "spent": 0.0}
+        st = {"kinds": {}, "spent": 0.0}
         ctx._c11_shrink = st
-    budget = 20.0 if ctx.tier == "quick" else 240.0
-    if f.what not in st["kinds"] and st["spent"] < budget and f.tags.get("stage") != "leanparse" \
-            and f.tags.get("stage") != "spectext":
-        st["kinds"].add(f.what)
+    budget = 25.0 if ctx.tier == "quick" else 240.0
+    if f.what not in st["kinds"] and st["spent"] < budget and f.tags.get("stage") not in ("leanparse", "spectext"):
         t0 = time.time()
-        f = minimise(f, t0 + min(8.0, budget - st["spent"]))
+        g = analyse(ctx, f, before, t0 + min(9.0, budget - st["spent"]))
+        st["kinds"][f.what] = g.what
+        f = g
         st["spent"] += time.time() - t0
+    else:
+        # same wording as the analysed failure of this kind (one VIOLATION line per kind), earlier steps attached
+        f = C.Failure(st["kinds"].get(f.what, f.what), dict(f.input, before=before) if before else f.input,
+                      f.expected, f.got, f.tags)
     ctx.fail(f)
 
 
 # ------------------------------------------------------------------ run / replay
 
-def run_case(ctx: C.Ctx, spec, la, strip, codecs, branch=None, collect=None, images=False) -> None:
-    r = eval_case(spec, la, strip, codecs, images=images)
-    nontriv = getattr(r, "nglyph", 0) > 0 and (special_count(spec) > 0 or not getattr(r, "legal", True)
-                                               or spec.get("profile") != "plain")
-    ctx.case(("c11", json.dumps(spec, sort_keys=True), json.dumps(la, sort_keys=True), strip, tuple(codecs), images), nontriv,
-             sample={"profile": spec.get("profile"), "laparams": la, "strip_control": strip, "codecs": codecs,
-                     "fonts": [f["name"] for f in spec["fonts"]], "xobjs": [x["name"] for x in spec["xobjs"]],
-                     "pages": len(spec["pages"])},
-             branch=branch or ("profile:" + str(spec.get("profile"))))
-    ctx.branch("laparams:" + json.dumps(la, sort_keys=True))
-    ctx.branch("strip:" + str(strip))
-    ctx.branch("imagewriter:" + str(images))
-    for c in codecs:
-        ctx.branch("codec:" + c)
-    if hasattr(r, "tree"):
-        count_nodes(ctx, r.tree)
-    if getattr(r, "opaque_bad", False):
-        ctx.branch("xml-domain:formatted-field-not-plain")
-    if getattr(r, "unstable", False):
-        ctx.branch("hierarchy:id-tie-order-differs-between-runs")
-    seen = set()
-    for f in r.failures:
-        key = (f.what, f.tags.get("codec"))
-        if key in seen:
-            continue
-        seen.add(key)
-        report(ctx, f)
-    if collect is not None:
-        collect.append(r)
+def run_session(ctx: C.Ctx, steps: List[Dict[str, Any]], branch=None, collect=None) -> None:
+    """Evaluate the steps in order in this process; every step is a case of its own."""
+    for k, step in enumerate(steps):
+        spec, la, strip, codecs, images = step["spec"], step["laparams"], step["strip_control"], step["codecs"], \
+            step["images"]
+        r = eval_step(step)
+        nontriv = getattr(r, "nglyph", 0) > 0 and (special_count(spec) > 0 or not getattr(r, "legal", True)
+                                                   or spec.get("profile") != "plain")
+        ctx.case(("c11", json.dumps(step, sort_keys=True), k), nontriv,
+                 sample={"profile": spec.get("profile"), "laparams": la, "strip_control": strip, "codecs": codecs,
+                         "images": images, "nocache": step["nocache"], "step": k,
+                         "fonts": [f["name"] for f in spec["fonts"]], "xobjs": [x["name"] for x in spec["xobjs"]],
+                         "pages": len(spec["pages"])},
+                 branch=branch or ("profile:" + str(spec.get("profile"))))
+        ctx.branch("laparams:" + json.dumps(la, sort_keys=True))
+        ctx.branch("strip:" + str(strip))
+        ctx.branch("imagewriter:" + str(images))
+        ctx.branch("disable_caching:" + str(step["nocache"]))
+        ctx.branch("sink:" + ("file objects (text mode / binary mode)" if step.get("filesink") else "StringIO/BytesIO"))
+        ctx.branch("session-step:%d" % k + (":" + step.get("kind", "") if k else ""))
+        for c in codecs:
+            ctx.branch("codec:" + c)
+        if hasattr(r, "tree"):
+            count_nodes(ctx, r.tree)
+        if getattr(r, "opaque_bad", False):
+            ctx.branch("xml-domain:formatted-field-not-plain")
+        if getattr(r, "unstable", False):
+            ctx.branch("hierarchy:id-tie-order-differs-between-runs")
+        seen = set()
+        for f in r.failures:
+            key = (f.what, f.tags.get("codec"))
+            if key in seen:
+                continue
+            seen.add(key)
+            report(ctx, f, [dict(b) for b in steps[:k]])
+        if collect is not None:
+            collect.append(r)
+        hist = getattr(ctx, "_c11_hist", [])
+        hist.append({k2: v for k2, v in step.items() if k2 != "kind"})
+        ctx._c11_hist = hist[-4:]
 
 
 def count_nodes(ctx, tree) -> None:
@@ -1222,10 +1381,9 @@ def replay(ctx: C.Ctx, doc, from_corpus: bool = False) -> None:
     inp = doc.get("input", {})
     if "spec" not in inp:
         return
-    codec = inp.get("codec")
+    steps = [step_of(b) for b in inp.get("before", [])] + [step_of(inp)]
     coll: List[CaseResult] = []
-    run_case(ctx, inp["spec"], inp.get("laparams"), bool(inp.get("strip_control")), [codec] if codec else [],
-             branch="corpus" if from_corpus else "replay", collect=coll, images=bool(inp.get("images")))
+    run_session(ctx, steps, branch="corpus" if from_corpus else "replay", collect=coll)
     flush_model(ctx, coll)
 
 
@@ -1261,13 +1419,44 @@ def fmt_probes(ctx: C.Ctx) -> None:
             ctx.disagree(inp["op"], inp, exp, got)
 
 
+def sibling(rng, spec):
+    """Another document with the same fonts (names, maps) and XObject names but other page contents."""
+    import copy
+    sib = copy.deepcopy(spec)
+    for pg in sib["pages"]:
+        rng.shuffle(pg["items"])
+        for it in pg["items"]:
+            if it[0] in ("text", "vtext") and len(it[5]) > 1:
+                it[5] = it[5][::-1]
+    if len(sib["pages"]) > 1 and rng.random() < 0.5:
+        sib["pages"] = sib["pages"][::-1]
+    return sib
+
+
+def follow_up(rng, base: Dict[str, Any]) -> Dict[str, Any]:
+    """A second conversion in the same process: what a converter / font / codec left behind must not matter."""
+    kind = rng.choice(["flip-strip", "flip-strip", "same", "sibling-flip-strip", "other-codec", "flip-cache"])
+    st = dict(base, kind=kind)
+    if kind in ("flip-strip", "sibling-flip-strip"):
+        st["strip_control"] = not base["strip_control"]
+    if kind == "sibling-flip-strip":
+        st["spec"] = sibling(rng, base["spec"])
+    if kind == "other-codec":
+        st["codecs"] = [rng.choice(CODECS)]
+    elif len(st["codecs"]) > 1:
+        st["codecs"] = [rng.choice(st["codecs"])]
+    if kind == "flip-cache":
+        st["nocache"] = not base["nocache"]
+    return st
+
+
 def run(ctx: C.Ctx) -> None:
     run_corpus(ctx)
     fmt_probes(ctx)
     rng = ctx.rng
-    n = ctx.n(300, 8000)
+    n = ctx.n(230, 6000)
     coll: List[CaseResult] = []
-    profiles = ["plain", "special", "control", "wide", "mixed", "latin", "wsp"]
+    profiles = ["plain", "special", "control", "wide", "mixed", "latin", "wsp", "cjk", "hangul"]
     for i in range(n):
         if not ctx.time_left():
             ctx.notes.append(f"stopped after {i} documents (time budget)")
@@ -1278,10 +1467,19 @@ def run(ctx: C.Ctx) -> None:
         spec = gen_spec(rng, profiles[i % len(profiles)] if i < 3 * len(profiles) else None)
         la = LAPARAMS_CHOICES[i % len(LAPARAMS_CHOICES)] if i < 2 * len(LAPARAMS_CHOICES) else rng.choice(LAPARAMS_CHOICES)
         strip = (i % 3 == 1) if i < 12 else rng.random() < 0.4
-        codecs = [CODECS[i % len(CODECS)], rng.choice(CODECS)]
+        pool = CODECS_BY_PROFILE.get(spec["profile"])
+        if pool and rng.random() < 0.8:
+            codecs = [pool[i % len(pool)], rng.choice(pool)]
+        else:
+            codecs = [CODECS[i % len(CODECS)], rng.choice(CODECS)]
         codecs = sorted(set(codecs))
         images = any(x["kind"] == "image" for x in spec["xobjs"]) and rng.random() < 0.5
-        run_case(ctx, spec, la, strip, codecs, collect=coll, images=images)
+        base = {"spec": spec, "laparams": la, "strip_control": strip, "images": images,
+                "nocache": rng.random() < 0.15, "filesink": rng.random() < 0.2, "codecs": codecs}
+        steps = [base]
+        if i % 2 == 1 or rng.random() < 0.2:
+            steps.append(follow_up(rng, base))
+        run_session(ctx, steps, collect=coll)
         if len(coll) >= 50:
             flush_model(ctx, coll)
             coll = []
